@@ -39,6 +39,8 @@ var faultKinds = []faultKind{
 	{"timeout+data", xport.FaultTimeout, true, false},
 	{"timeout,resumes", xport.FaultTimeout, false, true},
 	{"error+data,resumes", xport.FaultError, true, true},
+	{"io.ErrUnexpectedEOF", xport.FaultUnexpectedEOF, false, false},
+	{"io.ErrUnexpectedEOF+data", xport.FaultUnexpectedEOF, true, false},
 }
 
 func genFaultCase(t *rapid.T) FaultCase {
